@@ -54,3 +54,14 @@ Fixpoint pos_cost (P : sprob) (i0 : nat) (p : list Z) : Z :=
 
 (* largest admissible position of source i: D_m - S_{i+1} *)
 Definition topx (P : sprob) (i : nat) : Z := Dx P (n_snk P) - Sx P (i + 1).
+
+(* plans of the sorted problem as matrices X i j (source i -> sink j): total cost and feasibility
+   (non-negative entries, every supply S_{i+1}-S_i met exactly, no demand D_{j+1}-D_j exceeded) *)
+Definition mat_cost (P : sprob) (X : nat -> nat -> Z) : Z :=
+  zsum (fun i => zsum (fun j => cost P i j * X i j) (seq 0 (n_snk P))) (seq 0 (n_src P)).
+
+Definition feasible_mat (P : sprob) (X : nat -> nat -> Z) : Prop :=
+  (forall i j, (i < n_src P)%nat -> (j < n_snk P)%nat -> 0 <= X i j) /\
+  (forall i, (i < n_src P)%nat -> zsum (fun j => X i j) (seq 0 (n_snk P)) = Sx P (i + 1) - Sx P i) /\
+  (forall j, (j < n_snk P)%nat -> zsum (fun i => X i j) (seq 0 (n_src P)) <= Dx P (j + 1) - Dx P j).
+
